@@ -173,3 +173,51 @@ Proof.
   unfold s_idle, s_abort. rewrite Ht, Hd. cbn [Z.eqb negb].
   destruct (dec_maxsegs (a_maxsegs a)) as [ms|e1] eqn:Ems; mcbn; path_split; mcbn; reflexivity.
 Qed.
+
+(* ---------- I-Am data (app.DeviceInfoCache.iam_device_info as modelled by SsmWorld.iam_update) ---------- *)
+Lemma assoc_set_assoc : forall {A} k (v : A) l, assoc k (set_assoc k v l) = Some v.
+Proof.
+  intros A k v l. induction l as [|[k' v'] r IH]; cbn [set_assoc assoc].
+  - rewrite Z.eqb_refl. reflexivity.
+  - destruct (k =? k') eqn:E; cbn [assoc]; [rewrite Z.eqb_refl; reflexivity | rewrite E; exact IH].
+Qed.
+
+Lemma get_put_same' : forall n ns addr m, get_node addr ns = Some m -> c_addr (n_cfg n) = addr -> get_node addr (put_node n ns) = Some n.
+Proof.
+  intros n ns addr m. induction ns as [|x r IH]; cbn [get_node put_node]; [discriminate|]. intros H Ha.
+  destruct (c_addr (n_cfg x) =? addr) eqn:E.
+  - replace (c_addr (n_cfg x) =? c_addr (n_cfg n)) with true by lia. cbn [get_node]. replace (c_addr (n_cfg n) =? addr) with true by lia. reflexivity.
+  - replace (c_addr (n_cfg x) =? c_addr (n_cfg n)) with false by lia. cbn [get_node]. rewrite E. apply IH; assumption.
+Qed.
+
+Lemma get_node_addr' : forall addr ns n, get_node addr ns = Some n -> c_addr (n_cfg n) = addr.
+Proof.
+  intros addr ns n. induction ns as [|m r IH]; cbn [get_node]; [discriminate|].
+  destruct (c_addr (n_cfg m) =? addr) eqn:E; [intros H; inversion H; subst; lia | exact IH].
+Qed.
+
+(* the latest I-Am wins, always: afterwards the record of that peer carries exactly the announced maximum APDU length and
+   segmentation support (whether or not transactions with that peer are open), every open transaction of the node with that
+   peer that holds a record holds this one, and a request submitted from now on is cut to at most the announced length *)
+Lemma iam_update_record : forall addr peer ma sg w n, get_node addr (w_nodes w) = Some n -> c_raw (n_cfg n) = false ->
+  exists n' d, get_node addr (w_nodes (iam_update addr peer ma sg w)) = Some n' /\
+    assoc peer (c_know (n_cfg n')) = Some d /\ d_maxapdu d = Some ma /\ d_seg d = sg /\
+    (forall t, In t (n_ctr n' ++ n_str n') -> s_peer t = peer -> s_dinfo t <> None -> s_dinfo t = Some d) /\
+    client_segsize (new_ssm (n_cfg n') peer true) <= ma.
+Proof.
+  intros addr peer ma sg w n Hn Hraw. unfold iam_update. rewrite Hn, Hraw.
+  pose proof (get_node_addr' _ _ _ Hn) as Ha.
+  set (d := match assoc peer (c_know (n_cfg n)) with
+            | Some old => mkDinfo (Some ma) sg (d_maxsegs old) (d_maxnpdu old) | None => mkDinfo (Some ma) sg None None end).
+  eexists. exists d. cbn [w_nodes set_nodes]. split; [eapply get_put_same'; [exact Hn | cbn [n_cfg c_addr]; exact Ha]|].
+  cbn [n_cfg c_know n_ctr n_str]. split; [apply assoc_set_assoc|].
+  split; [unfold d; destruct (assoc peer (c_know (n_cfg n))); reflexivity|].
+  split; [unfold d; destruct (assoc peer (c_know (n_cfg n))); reflexivity|].
+  split.
+  - intros t Hin Hp Hd. rewrite <- map_app in Hin. apply in_map_iff in Hin. destruct Hin as (t0 & Ht0 & _). subst t.
+    destruct ((s_peer t0 =? peer) && match s_dinfo t0 with Some _ => true | None => false end) eqn:E.
+    + destruct t0; reflexivity.
+    + exfalso. destruct (s_dinfo t0) eqn:Ed; [|apply Hd; reflexivity]. rewrite Bool.andb_true_r in E. lia.
+  - eapply client_segsize_le_peer; [unfold new_ssm; cbn [s_dinfo c_know]; apply assoc_set_assoc|].
+    unfold d; destruct (assoc peer (c_know (n_cfg n))); reflexivity.
+Qed.
